@@ -523,7 +523,13 @@ func runC02(r *Rand, tier string, o *Out) {
 		st := parseSigT([]string{"(m)", "(m)<Box,v>", "((m))", "(m)<Opt<T>,value>"}[r.Intn(4)])
 		g := &gval{kind: "L"}
 		for j := 0; j < 2+r.Intn(3); j++ {
-			g.elems = append(g.elems, &gval{kind: "O", sig: st, tv: genTVal(r, st, 1)})
+			tv := genTVal(r, st, 1)
+			if r.Bool() {
+				// the member is a value that holds a value (signature "m" inside the value)
+				wrapFirstM(tv)
+				o.Count("val:value-of-value-inside-an-opaque-value")
+			}
+			g.elems = append(g.elems, &gval{kind: "O", sig: st, tv: tv})
 		}
 		enc := g.encode()
 		tail := r.Bytes(r.Intn(3))
@@ -578,6 +584,22 @@ func runC02(r *Rand, tier string, o *Out) {
 			o.Count("val:mutated")
 		}
 	}
+}
+
+// wrapFirstM turns the first dynamic value below v into a value that holds that value
+func wrapFirstM(v *tval) bool {
+	if v.kind == 'm' {
+		inner := &tval{kind: 'm', dynT: v.dynT, elems: v.elems}
+		v.dynT = &sigT{kind: 'm'}
+		v.elems = []*tval{inner}
+		return true
+	}
+	for _, e := range v.elems {
+		if wrapFirstM(e) {
+			return true
+		}
+	}
+	return false
 }
 
 func tail2(s string, n int) string {
